@@ -340,6 +340,11 @@ func (w *World) runRequest(t *Task, rs *ReqSpec) {
 	default:
 		panic("sim: unknown request kind " + rs.Kind)
 	}
+	if t.dead {
+		// the server crashed while this request was blocked inside the library; whatever it did afterwards never happened
+		t.Handled, t.Err = false, errCrashed
+		return
+	}
 	res := fmt.Sprintf("handled=%v status=%d", t.Handled, t.Rec.Status)
 	if t.Err != nil {
 		res += " err=" + trunc(t.Err.Error(), 120)
